@@ -217,7 +217,13 @@ fn ref_key(input: usize, backend: &BackendSel) -> String {
 pub struct C11Threads {
     /// inputs deliberately define one bare top-level name in two modules (finding F1)
     pub xmod: bool,
+    /// fine-grained interleaving: heap allocations of the code under test are yield points
+    /// (the allocator seam), small generated inputs, 2..3 threads
+    pub fine: bool,
 }
+
+/// a fixed source that touches every lazily initialised table of the compiler
+const WARM_UP: &str = "Warm-Up DEFINITIONS AUTOMATIC TAGS ::= BEGIN\n A ::= NumericString (FROM(\"0\"..\"9\"))\n B ::= PrintableString (FROM(\"a\"..\"f\"))\n C ::= VisibleString (FROM(\"a\"..\"f\"))\n D ::= IA5String (FROM(\"a\"..\"f\"))\n E ::= UTF8String (FROM(\"a\"..\"f\"))\n F ::= BMPString (FROM(\"a\"..\"f\"))\n G ::= SEQUENCE { a INTEGER (0..7) DEFAULT 3, b BOOLEAN OPTIONAL }\n v INTEGER ::= 5\nEND\n";
 
 impl Scenario for C11Threads {
     fn property(&self) -> &'static str {
@@ -226,16 +232,20 @@ impl Scenario for C11Threads {
     fn name(&self) -> &'static str {
         if self.xmod {
             "xmod-name"
+        } else if self.fine {
+            "fine-grain"
         } else {
             "threads"
         }
     }
     fn runs(&self, tier: Tier) -> u64 {
-        match (tier, self.xmod) {
-            (Tier::Quick, false) => 6000,
-            (Tier::Thorough, false) => 80000,
-            (Tier::Quick, true) => 300,
-            (Tier::Thorough, true) => 3000,
+        match (tier, self.xmod, self.fine) {
+            (Tier::Quick, false, true) => 1500,
+            (Tier::Thorough, false, true) => 30000,
+            (Tier::Quick, false, _) => 6000,
+            (Tier::Thorough, false, _) => 80000,
+            (Tier::Quick, true, _) => 300,
+            (Tier::Thorough, true, _) => 3000,
         }
     }
     fn needs_reference(&self) -> bool {
@@ -250,7 +260,7 @@ impl Scenario for C11Threads {
         let mut w = root.fork("workload");
         // ---- inputs
         let mut inputs: Vec<Input> = vec![];
-        let use_corpus = !self.xmod && !env.corpus.is_empty() && w.chance(1, 4);
+        let use_corpus = !self.xmod && !self.fine && !env.corpus.is_empty() && w.chance(1, 4);
         if use_corpus {
             // walk the corpus systematically so that every file is reached, plus a random one
             let a = (idx as usize / 4) % env.corpus.len();
@@ -375,6 +385,19 @@ impl Scenario for C11Threads {
                 }
             }
         }
+        let mut alloc_yield = 0u32;
+        if self.fine {
+            // at least two threads with at most three operations each; every k-th allocation yields
+            while ops.len() < 2 {
+                let again = ops[0].clone();
+                ops.push(again);
+            }
+            ops.truncate(3);
+            for h in &mut ops {
+                h.truncate(3);
+            }
+            alloc_yield = *root.fork("allocmode").pick(&[1u32, 1, 2, 3, 7, 19, 64]);
+        }
         // ---- schedule / faults
         let mut s = root.fork("schedule");
         let strategy = match s.below(7) {
@@ -383,6 +406,13 @@ impl Scenario for C11Threads {
             2 | 3 => Strategy::Random { percent: 30 },
             4 => Strategy::Random { percent: 100 },
             _ => Strategy::Pct { d: 1 + s.below(3) as u32, horizon: 400 },
+        };
+        let strategy = match (self.fine, strategy) {
+            // with thousands of yield points per operation the useful strategies are rare switches
+            (true, Strategy::RunToCompletion) => Strategy::Random { percent: 1 },
+            (true, Strategy::Random { percent: 100 }) => Strategy::Random { percent: 2 },
+            (true, Strategy::Pct { d, .. }) => Strategy::Pct { d: d + 2, horizon: 20_000 },
+            (_, st) => st,
         };
         let mut f = root.fork("faults");
         let mut faults = vec![];
@@ -403,6 +433,7 @@ impl Scenario for C11Threads {
             kill_at: None,
             buggify: vec![],
             capture_stdout: false,
+            alloc_yield,
         };
         let reuse_paths = root.fork("layout").chance(1, 3);
         let apart = if self.xmod {
@@ -531,6 +562,15 @@ impl Scenario for C11Threads {
                 }
                 results
             }));
+        }
+        if p.sim.alloc_yield > 0 {
+            // fine-grained runs: initialise the compiler's lazily built tables first, in the
+            // harness thread — otherwise a sim thread parked at an allocation INSIDE such an
+            // initialisation holds the `Once`, and the next thread to need the table blocks on it
+            // while holding the baton (the watchdog would resolve it, at the price of determinism)
+            for be in [BackendSel::Rasn(sut::RasnCfg::default_cfg()), BackendSel::Ts] {
+                let _ = sut::compile_to_string(&be, &[Src::Literal(WARM_UP.to_string())], &BuilderPath::default());
+            }
         }
         let (results, rep) = sim::run_sim(&p.sim, p.schedule.clone(), root, bodies);
         out.steps = rep.sched.steps + rep.events.len() as u64;
